@@ -23,7 +23,7 @@ from .. import core, sxvm
 
 LEVEL = "exploration"
 RULE = ("control points from patterns {unit vectors, alternating, ramps, seeded generic} with values in {-2,0,1,3}; T in {1/2,1,2,10,1/2000}; t/T in {0,1/3,1/2,1,-1/4,5/4}; "
-        "boundary vectors from {0, e_i, generic} for both ends; numeric curves {hold, creeping at 2500 / 1000 / -1e6, unit steps, alternating} x storage forms {DM, numpy C / F / transposed / strided / reversed views, SX constant}, all ordered pairs (thorough: triples) of curves in sequence. non-trivial = control points not all equal; distinct by exact input tuple")
+        "boundary vectors from {0, e_i, generic} for both ends; numeric curves {hold, creeping at 2500 / 1000 / -1e6, unit steps, alternating} x storage forms {DM, numpy C / F / transposed / strided / reversed views, SX constant}, all ordered pairs (thorough: triples) of curves in sequence; control-point dtypes {float32, int64, int32 F-order, object} x duration types; eval / deriv of two curves in two threads, <= 1 (2) preemptions; history op fork (shallow copy re-planned). non-trivial = control points not all equal; distinct by exact input tuple")
 ASSUMPTIONS = ["exact rational arithmetic on the real instruction lists (float VM conformance-gated bitwise against CasADi)", "degrees above 7: 8, 9, 12 exactly and 16, 24 (thorough 32, 40) in double against the exact value; other degrees not covered"]
 TS = [Fr(1, 2), Fr(1), Fr(2), Fr(10), Fr(1, 2000)]  # last: a segment shorter than a millisecond
 BETAS = [Fr(0), Fr(1, 3), Fr(1, 2), Fr(1), Fr(-1, 4), Fr(5, 4)]
